@@ -37,7 +37,7 @@ CLAIMED = {
                 tech=TECH, note=NOTE + 'itoap (write_to_ptr, write) and Write::write_all are assumed; the staged-bytes prophecy for buf_write_ptr/advance_unchecked is an axiom (axiom_staged).'),
     'C03': dict(cat='proof', ref='0.4, 6/C03', text='Proved, unbounded, at the level of codecs and entries (NOT yet whole documents): (1) 7-bit group codec: Writer::write_binary_uint appends varint_enc(n); binary_uint and delta_code accept every encoding of a usize and return exactly its value, consuming exactly the encoding; lemma_varint_roundtrip ties the two for all n. (2) decimal codec: the integer writer appends canon_dec(v) (itoap assumed canonical); lemma_canon_at: that text followed by a non-digit scans back as v, canonically. (3) binary AIGER writer: write_header (trailing zero fields dropped down to five), write_lit, write_count, write_latch (three reset forms), write_and_gate (input swap, deltas, order assertion), write_symbol, write_comment each append exactly the rendering r_*(entry). (4) every AIGER/CNF/BTOR2 token and section reader under contract has an exact (two-sided where stated) functional postcondition over the stream, so a parser that reads something else than what is written fails its own clause; Dimacs::from_dimacs is lossless under the range check. Not covered: ascii AIGER writer, DIMACS/WCNF/GCNF writers, BTOR2 write_into/next_line, whole-file drivers parse()/write_ordered_aig, entry-level parse(render(x)) == x lemmas for header/latch/symbol; known unrepaired gaps D4 (B/C/J/F header limits) and D9 (DecimalConst) are outside the functions under contract.' + SCOPE,
                 tech=TECH, note=NOTE + 'itoap output = canon_dec (assumption, stated as the WInt impls in prelude/codec.rs).'),
-    'C12': dict(cat='proof', ref='0.4, 6/C12', text='Proved by Verus on the real bodies, for all AIGs, all option sets and all valuations: (1) LitMap polarity algebra (insert/get/contains_key against lookup/xor1). (2) Aig::lit_defs: constant, inputs and gate outputs are pairwise distinct variables, error iff a duplicate exists, and every and-gate entry of the table is a gate of the AIG with its inputs (defs_from). (3) Renumber::transfer (the explicit-stack DFS with polarity xor, constant folding and structural hashing): with a ghost valuation v of the old literal codes about which nothing is assumed, and ev = the value of a new literal code computed from the new gate list over the leaf values of v, the invariant rinv says that every entry of lit_map, every partially translated gate on the stack and the returned literal n satisfy ev(n) == v(old literal) whenever v is a valuation of the definition table (v(0) false, negation by the low bit, every and-gate entry satisfied); every pushed gate has its larger input first and both inputs below its own code 2*(leaves + index + 1), last_code counts leaves and gates, structural-hash hits refer to an equal gate. (4) Renumber::initialize and Renumber::new: leaves numbered consecutively (inputs, then latches), the latch redefinition check, the invariant established and kept across all root transfers. (5) binary and-gate order on the writer and parser side. NOT proved: termination of transfer (exec_allows_no_decreases_clause; the cycle check is not shown to fire), that FoundCycle/LitNotDefined are only returned when justified, Renumber::renumber_aig (iterator adapters; the mapping of the root lists through lit_map) and the code-space assumption below.',
+    'C12': dict(cat='proof', ref='0.4, 6/C12', text='Proved by Verus on the real bodies, for all AIGs, all option sets and all valuations: (1) LitMap polarity algebra (insert/get/contains_key against lookup/xor1). (2) Aig::lit_defs: constant, inputs and gate outputs are pairwise distinct variables, error iff a duplicate exists, and every and-gate entry of the table is a gate of the AIG with its inputs (defs_from). (3) Renumber::transfer (the explicit-stack DFS with polarity xor, constant folding and structural hashing): with a ghost valuation v of the old literal codes about which nothing is assumed, and ev = the value of a new literal code computed from the new gate list over the leaf values of v, the invariant rinv says that every entry of lit_map, every partially translated gate on the stack and the returned literal n satisfy ev(n) == v(old literal) whenever v is a valuation of the definition table (v(0) false, negation by the low bit, every and-gate entry satisfied); every pushed gate has its larger input first and both inputs below its own code 2*(leaves + index + 1), last_code counts leaves and gates, structural-hash hits refer to an equal gate. (4) Renumber::initialize and Renumber::new: leaves numbered consecutively (inputs, then latches), the latch redefinition check, the invariant established and kept across all root transfers, every root literal mapped. (4b) Renumber::renumber_aig: the end-to-end statement - for every valuation v of the definition table (arbitrary ghost v), every latch next-state, output, bad-state, constraint, fairness and justice literal of the ordered result evaluates (ev over the returned gate list and the leaf values of v) to the value of the original literal; input/latch counts, max_var_index and the gate order of the result. (5) binary and-gate order on the writer and parser side. NOT proved: termination of transfer (exec_allows_no_decreases_clause; the cycle check is not shown to fire), that FoundCycle/LitNotDefined are only returned when justified, the element-wise behaviour of the iterator adapters in renumber_aig (shims map_lits/map_lits2/map_latches with stated specs), symbols/comment carried over (only their presence), and the code-space assumption below.',
                 tech=TECH, note=NOTE + 'ASSUMED: next_code (replaces `self.last_code += 2`): the renumbered circuit needs at most one new variable per variable the original defines, so codes stay within the literal type (counting argument, not machine-checked). Shims for the two-element sort, array map, array element assignment and the HashMap Entry API (get + insert) with stated specs; derived Hash/Eq of OrderedAndGate obey the key model; generalisation from the arbitrary ghost valuation to all valuations is a meta-argument.'),
     'C13': dict(cat='proof', ref='6/C13', text='All eight decimal scanners are verified once, generically over a trait ScanInt whose 12 impls (i8..i128,u8..u128,isize,usize) are themselves verified against the primitive overflowing ops: result == exact decimal value iff representable, offset == end of the digit run, lone minus not consumed; the multi variants have the same postcondition as the simple ones (fast == simple). The SWAR kernel is proved equal to a byte-wise reference for all 2^64 words by Kani; the reference is proved against dec/digits_len by Verus.',
                 tech=TECH + '; Kani/CBMC complete harness for the 8-byte kernel', note=NOTE + 'num-traits impls = inherent ops (R7).'),
